@@ -35,7 +35,14 @@ type Env struct {
 	Tables []string
 	Cols   map[string][]string // monitored columns per table (nil = all)
 	Sel    *ovsdb.MonitorSelect
-	Rep    *cache.TableCache // replica fed by the initial reply and the notifications
+	// SelOnly, if set, names the one table the select applies to; the other tables' requests omit "select"
+	SelOnly string
+	// Other: a second monitor ("mon2") with its own method and a narrower column selection is registered too;
+	// 1 = on the same connection, 2 = on its own connection. Its notifications are not examined.
+	Other     int
+	OtherKind int
+	Mon2      *rpc2.Client
+	Rep       *cache.TableCache // replica fed by the initial reply and the notifications
 
 	partial bool // some kind of change is deselected: the replica is not expected to mirror
 }
@@ -57,7 +64,14 @@ func NewEnv() *Env {
 	}
 	e.Srv = srv
 	e.Mon = rt.NewRPCClient(func(method string, args []json.RawMessage) (interface{}, error) {
+		var id string
+		if len(args) > 0 && json.Unmarshal(args[0], &id) == nil && id == "mon2" {
+			return []interface{}{}, nil
+		}
 		e.Notes = append(e.Notes, note{method, args})
+		return []interface{}{}, nil
+	})
+	e.Mon2 = rt.NewRPCClient(func(method string, args []json.RawMessage) (interface{}, error) {
 		return []interface{}{}, nil
 	})
 	e.Cli = rt.NewRPCClient(func(method string, args []json.RawMessage) (interface{}, error) {
@@ -88,9 +102,28 @@ var methodOf = []string{"update", "update2", "update3"}
 func (e *Env) Monitor() {
 	req := map[string]*ovsdb.MonitorRequest{}
 	for _, t := range e.Tables {
-		req[t] = &ovsdb.MonitorRequest{Columns: e.Cols[t], Select: e.Sel}
+		req[t] = &ovsdb.MonitorRequest{Columns: e.Cols[t], Select: e.selFor(t)}
 	}
 	args := []json.RawMessage{raw("V"), raw("mon1"), raw(req)}
+	if e.Other > 0 {
+		conn := e.Mon
+		if e.Other == 2 {
+			conn = e.Mon2
+		}
+		narrow := map[string]*ovsdb.MonitorRequest{"Root": {Columns: []string{"name"}}, "Child": {Columns: []string{"name"}}}
+		args2 := []json.RawMessage{raw("V"), raw("mon2"), raw(narrow)}
+		switch e.OtherKind {
+		case 0:
+			var reply ovsdb.TableUpdates
+			rt.Assert(e.Srv.Monitor(conn, args2, &reply) == nil, "C07: second monitor accepted")
+		case 1:
+			var reply ovsdb.TableUpdates2
+			rt.Assert(e.Srv.MonitorCond(conn, args2, &reply) == nil, "C07: second monitor_cond accepted")
+		case 2:
+			var reply ovsdb.MonitorCondSinceReply
+			rt.Assert(e.Srv.MonitorCondSince(conn, args2, &reply) == nil, "C07: second monitor_cond_since accepted")
+		}
+	}
 	switch e.Kind {
 	case 0:
 		var reply ovsdb.TableUpdates
@@ -129,6 +162,30 @@ func (e *Env) ApplyNotes() {
 			rt.Assert(e.Rep.Populate2(tu) == nil, "C01: the update3 notification applies to the replica")
 		}
 	}
+}
+
+// selFor is the select member of the monitor request for a table (nil = omitted).
+func (e *Env) selFor(t string) *ovsdb.MonitorSelect {
+	if e.SelOnly != "" && e.SelOnly != t {
+		return nil
+	}
+	return e.Sel
+}
+
+// partialT: some kind of change of this table is deselected.
+func (e *Env) partialT(t string) bool {
+	return e.partial && (e.SelOnly == "" || e.SelOnly == t)
+}
+
+// fullTables lists the monitored tables all of whose changes are selected.
+func (e *Env) fullTables() []string {
+	var out []string
+	for _, t := range e.Tables {
+		if !e.partialT(t) {
+			out = append(out, t)
+		}
+	}
+	return out
 }
 
 func monitored(cols []string, c string) bool {
@@ -181,7 +238,7 @@ func mapEq(a, b map[string]string) bool {
 
 // Mirrors: for every monitored table the replica holds exactly the database rows, equal in every monitored column.
 func (e *Env) Mirrors() bool {
-	for _, t := range e.Tables {
+	for _, t := range e.fullTables() {
 		dbRows, err := e.DB.List("V", t)
 		if err != nil {
 			return false
@@ -266,6 +323,13 @@ func (e *Env) symMonitor(kinds int) {
 		e.Sel = ovsdb.NewMonitorSelect(true, false, true, true) // no insert
 		e.partial = true
 	}
+	if mixedSel && len(e.Tables) == 2 {
+		e.SelOnly = []string{"", "Root", "Child"}[rt.Choose(3)]
+	}
+	if twoMon {
+		e.Other = 1 + rt.Choose(2)
+		e.OtherKind = rt.Choose(3)
+	}
 }
 
 // selKinds bounds the select-flag menu (entries widen it).
@@ -342,7 +406,7 @@ var allRows = map[string][]string{"Root": {fix.U1}, "Child": {fix.C1, fix.C2, fi
 
 // anyMonitoredChange: does the transaction change the monitored part of the database at all?
 func (e *Env) anyMonitoredChange(before, after *c04.State) bool {
-	for _, t := range e.Tables {
+	for _, t := range e.fullTables() {
 		for _, u := range allRows[t] {
 			ch, was, is := changedCols(before, after, t, u, e.Cols[t])
 			if was != is || len(ch) > 0 {
@@ -411,12 +475,11 @@ func step(cfg c04.Cfg, nOps, kinds int) {
 	}
 	rt.Assert(s.Matches(e.DB), "C07: the committed contents are those of the reference")
 	rt.Assert(len(e.Notes) <= 1, "C07: at most one notification per committed transaction and monitor")
-	if !e.partial {
-		if e.anyMonitoredChange(before, s) {
-			rt.Assert(len(e.Notes) == 1, "C07: exactly one notification for a transaction that changes the monitored part of the database")
-		} else {
-			rt.Assert(len(e.Notes) == 0, "C07: nothing is sent for a transaction with no net effect on the monitored part")
-		}
+	full := e.fullTables()
+	if e.anyMonitoredChange(before, s) {
+		rt.Assert(len(e.Notes) == 1, "C07: exactly one notification for a transaction that changes the monitored part of the database")
+	} else if len(full) == len(e.Tables) {
+		rt.Assert(len(e.Notes) == 0, "C07: nothing is sent for a transaction with no net effect on the monitored part")
 	}
 	if len(e.Notes) == 1 && e.Kind > 0 {
 		e.checkMinimal(before, s, e.Notes[0].args[len(e.Notes[0].args)-1])
@@ -426,7 +489,10 @@ func step(cfg c04.Cfg, nOps, kinds int) {
 		if len(e.Notes) == 1 && e.Kind > 0 {
 			var tu ovsdb.TableUpdates2
 			_ = json.Unmarshal(e.Notes[0].args[len(e.Notes[0].args)-1], &tu)
-			for _, rows := range tu {
+			for t, rows := range tu {
+				if !e.partialT(t) {
+					continue
+				}
 				for _, ru := range rows {
 					rt.Assert(ru.Insert == nil || e.Sel.Insert(), "C07: no insert is reported to a monitor that did not select inserts")
 					rt.Assert(ru.Delete == nil || e.Sel.Delete(), "C07: no delete is reported to a monitor that did not select deletes")
@@ -434,7 +500,9 @@ func step(cfg c04.Cfg, nOps, kinds int) {
 				}
 			}
 		}
-		return
+		if len(full) == 0 {
+			return
+		}
 	}
 	e.ApplyNotes()
 	if !rt.Symbolic() {
@@ -477,6 +545,16 @@ func VerifC07Chain1() { step(cfgChain, 1, 3) }
 func VerifC07Kids2()  { step(cfgKids, 2, 3) }
 func VerifC07Select() { selKinds = 5; step(cfgKids, 1, 3) }
 func VerifC07Chain2() { step(cfgChain, 2, 2) }
+
+// VerifC07TwoMon: a second, narrower monitor (any method; same or separate connection) is served from the same
+// committed update, in either order (the iteration order of processMonitors is a decision).
+func VerifC07TwoMon() { twoMon = true; step(cfgKids, 1, 3) }
+
+// VerifC07MixedSel: the select member is given for one table only; the tables of an update are visited in either
+// order (the iteration order of GetUpdatedTables is a decision).
+func VerifC07MixedSel() { selKinds = 5; mixedSel = true; step(cfgKids, 1, 3) }
+
+var twoMon, mixedSel bool
 
 // ---- C02: all or nothing ----
 
